@@ -3,7 +3,8 @@
 Rib.tla (the RIB model of C02/C06/C15, with the decision process and the ECMP set) gives, in every state, the next-hop set the
 FIB must hold per prefix (fib = next hops of EcmpSet) and the number of paths using each next hop (reg).  Random behaviours of
 the model (insert / replace / remove / peer drop / stale marking and purge / LLGR marking and purge / next-hop reachability
-flips / soft reset IN under an import policy that sets the next hop, over three peers and shared next hops) are replayed through the real TableManager with a readable kernel handle
+flips / soft reset IN under an import policy that sets the next hop, over three peers and shared next hops; IPv4, IPv6 and
+VPNv4 / VPNv6 prefixes with three VRFs whose import targets match some, all or none of the paths' route targets) are replayed through the real TableManager with a readable kernel handle
 (cfg-guarded constructor in the kernel crate); after every operation the request stream is drained and folded, and compared
 with the model."""
 import json
@@ -11,7 +12,7 @@ import os
 
 import riblib
 import vf
-from riblib import Cfg, CLASSES, SESSIONS, PEER_ADDR, PREFIXES, NEXTHOPS
+from riblib import Cfg, CLASSES, SESSIONS, PEER_ADDR, PREFIXES, NEXTHOPS, VRFS
 
 LEVEL = "exploration"
 OPS = ["insert", "remove", "drop", "markstale", "dropstale", "markllgr", "dropllgr", "nhflip", "softreset"]
@@ -21,7 +22,7 @@ def header(cfg):
     L = []
     for x in cfg.sessions:
         i = SESSIONS[x]
-        L.append(f"sess {x} {PEER_ADDR[i['peer']]} {1 if i['ebgp'] else 0} {i['rtr']}")
+        L.append(f"sess {x} {PEER_ADDR[i['peer']]} {1 if i['ebgp'] else 0} {i['rtr']} {i.get('role', '')}".rstrip())
     for p in cfg.prefixes:
         L.append(f"prefix {p} {PREFIXES[p]}")
     for n in cfg.nexthops:
@@ -30,7 +31,11 @@ def header(cfg):
         c = CLASSES[cn]
         asp = ";".join(f"{t}:{','.join(str(a) for a in asns)}" for t, asns in c["aspath"])
         comm = ",".join(str(x) for x in c["comm"]) or "-"
-        L.append(f"cls {cn} {c['lp']} {c['origin']} {c['clen']} {c['oid']} {asp} {comm}")
+        rts = ",".join(str(x) for x in c.get("rts", [])) or "-"
+        L.append(f"cls {cn} {c['lp']} {c['origin']} {c['clen']} {c['oid']} {asp} {comm} {rts}")
+    for v in cfg.vrfs:
+        tid, rd, imp = VRFS[v]
+        L.append(f"vrf {v} {tid} {rd} {','.join(str(x) for x in imp)}")
     return L
 
 
@@ -48,17 +53,41 @@ def op_line(cfg, o):
     return f"{k} {sess}"
 
 
+def vrf_mismatch(cfg, e, g, efib, vobs):
+    """VRF clause: every VRF whose import targets match the best path holds the prefix's next-hop set; without an eligible
+    path no VRF holds anything.  A VRF the best path does not match is not constrained by the property (counted only)."""
+    for v in cfg.vrfs:
+        for p, mode in e["post"]["vfib"][v].items():
+            got = g["vfib"].get(v, {}).get(p, [])
+            if vobs is not None:
+                vobs[mode] += 1
+                if mode == "none" and got:
+                    vobs["left_in_unmatched_vrf"] += 1
+            if mode == "must" and got != efib[p]:
+                return {"vrf": v, "prefix": p, "expected": efib[p], "actual": got, "why": "the best path's route targets match this VRF's import targets"}
+            if mode == "empty" and got:
+                return {"vrf": v, "prefix": p, "expected": [], "actual": got, "why": "no eligible path is left"}
+    if "?" in g["vfib"]:
+        return {"why": "a request for a table or prefix that does not exist", "actual": g["vfib"]}
+    return None
+
+
 def main(c):
     thorough = c.tier == "thorough"
     cfgs = [
         Cfg("f1", ["p1", "p2"], ["a1", "a2", "b1", "c1"], {"A": [0], "B": [0], "C": [0]}, ["c1", "c2", "c3"], ["n1", "n2"],
             filt=(False, True), ops=OPS),
-        Cfg("f2", ["p1", "p2"], ["a1", "b1", "c1"], {"A": [0, 1], "B": [0], "C": [0]}, ["c1", "c4", "cN"], ["n1", "n2", "n3"],
+        Cfg("f2", ["p1", "p2"], ["a1", "b1", "d1", "e1"], {"A": [0, 1], "B": [0], "D": [0], "E": [0]}, ["c1", "c4", "cN"], ["n1", "n2", "n3"],
             filt=(False,), ops=OPS),
+        # the VRF clause and the IPv6 half: one IPv6 prefix, a VPNv4 and a VPNv6 prefix, three VRFs with kernel tables (two
+        # import one route target each, one imports a target nobody carries), classes carrying 0, 1 or 2 route targets
+        Cfg("f3", ["p3", "q1", "q2"], ["a1", "b1", "c1"], {"A": [0, 1], "B": [0], "C": [0]}, ["r1", "r2", "r3", "c4"], ["n1", "n2"],
+            filt=(False, True), ops=OPS, vrfs=["va", "vb", "vc"]),
     ]
     num, depth = (1500, 40) if thorough else (250, 30)
     total = 0
     steps = 0
+    vobs = {"must": 0, "may": 0, "none": 0, "empty": 0, "left_in_unmatched_vrf": 0}
     for cfg in cfgs:
         r = riblib.design(cfg, ["OrderOK", "BestOK"], timeout=1500, workers=8) if thorough else None
         if r is not None:
@@ -105,6 +134,9 @@ def main(c):
             if g["fib"] != efib:
                 bad = "fib"
                 detail = {"expected": efib, "actual": g["fib"]}
+            elif vrf_mismatch(cfg, e, g, efib, vobs):
+                bad = "vrf_fib"
+                detail = vrf_mismatch(cfg, e, g, efib, None)
             elif g["neg"]:
                 bad = "reg_negative"
                 detail = {"what": "more unregistrations than registrations for a next hop", "reg": g["reg"]}
@@ -119,13 +151,16 @@ def main(c):
                 seen.add(sig)
                 c.violation("c20." + bad, dict(detail, op=e["op"]), {"spec": "Rib", "config": cfg.describe(), "ops": hist})
     c.cov["parts"]["replay"] = {"behaviours": total, "steps": steps}
+    c.cov["parts"]["vrf_cells"] = vobs
     c.cov["traces_validated_against_impl"] = total
     c.cov["distinct_nontrivial"] = total
     c.cov["evaluations"] = steps                           # operations executed on the real TableManager
     c.cov["exhaustive"] = False
-    c.cov["rule"] = ("random behaviours of Rib.tla over 2 prefixes, 3 peers (one with two successive sessions / two path ids), attribute "
+    c.cov["rule"] = ("random behaviours of Rib.tla over 2-3 prefixes (IPv4, IPv6, VPNv4, VPNv6; 3 VRFs), 3 peers (one with two successive sessions / two path ids), attribute "
                      "classes that tie / win / lose, 2-3 shared next hops, import-policy rejection; distinct = replayed behaviours")
-    c.assumptions += ["IPv4 unicast only: the VRF clause (VPN prefixes installed per VRF with matching import targets) is not covered",
+    c.assumptions += ["VRFs are configured before the history starts (the property's histories do not add or delete VRFs); VPN prefixes of "
+                      "different route distinguishers do not share an inner prefix; a VRF the current best path does not match is not "
+                      "constrained (entries left there are counted in parts.vrf_cells.left_in_unmatched_vrf, not reported)",
                       "a next-hop-setting import policy cannot be configured (build_assignment refuses it); the soft-reset operation "
                       "installs one built as an export-direction assignment, as the only way to exercise the quantifier's "
                       "'soft reset with next-hop-changing policy'",
